@@ -157,12 +157,29 @@ def gen_ops(rng, sc, length, kinds):
             mode = rng.choice(["whole", "target", "deps"])
             T = sorted(rng.sample(range(n), rng.randint(1, min(2, n))))
             ops.append(dict(op="cache", inst=inst, mode=mode, T=T, args=rng.choice([(1,), (2, 3), (5, 6)]),
-                            restart=rng.choice(["same", "whole"]), omit_default=rng.random() < 0.5))
+                            restart=rng.choice(["same", "whole"]), omit_default=rng.random() < 0.5,
+                            slot=rng.choice([None, 0, 0, 1])))
     return ops
 
 
 def ids(l):
     return ["n%d" % i for i in l]
+
+
+_CACHE_DIR = [None]
+
+
+def cache_slot(k):
+    if _CACHE_DIR[0] is None:
+        _CACHE_DIR[0] = tempfile.mkdtemp(prefix="twzcacheslots")
+    return os.path.join(_CACHE_DIR[0], "slot%d.pkl" % k)
+
+
+def cleanup_cache_slots():
+    if _CACHE_DIR[0] is not None:
+        import shutil
+        shutil.rmtree(_CACHE_DIR[0], ignore_errors=True)
+        _CACHE_DIR[0] = None
 
 
 class Instances:
@@ -275,8 +292,14 @@ def run_history(sc, ops):
             records.append(rec2)
             continue
         elif op["op"] == "cache":
-            fd, path = tempfile.mkstemp(suffix=".pkl", prefix="twzcache")
-            os.close(fd)
+            # a user keeps ONE cache path and overwrites it run after run: most pairs share one of two paths that
+            # live as long as the process (a stale in-process copy of an overwritten file must not be used)
+            slot = op.get("slot")
+            if slot is None:
+                fd, path = tempfile.mkstemp(suffix=".pkl", prefix="twzcache")
+                os.close(fd)
+            else:
+                path = cache_slot(slot)
             try:
                 mode, T = op["mode"], op["T"]
                 if mode == "whole":
@@ -319,10 +342,11 @@ def run_history(sc, ops):
                                                                " ".join(enc(a) for a in op["args"])))
                 records.append(rec2)
             finally:
-                try:
-                    os.remove(path)
-                except OSError:
-                    pass
+                if slot is None:
+                    try:
+                        os.remove(path)
+                    except OSError:
+                        pass
             continue
         rec["entered"], rec["dups"] = counters_delta(before, tag, n)
         records.append(rec)
